@@ -94,13 +94,10 @@ func (t *ParsedTable) ToMarkdown() string {
 	}
 	result += "\n"
 
-	// Data rows (skip first if it was header)
-	startRow := 1
-	if !t.HasHeader && len(t.Rows) > 1 {
-		startRow = 0
-	}
-
-	for i := startRow; i < len(t.Rows); i++ {
+	// Data rows. The first row has been written above in either case: as the
+	// header when the table has one, and in the header position (a pipe table
+	// needs a first line) when it has none
+	for i := 1; i < len(t.Rows); i++ {
 		result += "|"
 		for _, cell := range t.Rows[i] {
 			result += " " + escapeMarkdown(cell.Text) + " |"
